@@ -64,8 +64,8 @@ T2 = [
  ("R2_C08_2", "C08", 2, [("demo2.rs", "server/tests/c08_demo2.rs")], "cargo test -p server --features verif --offline --release --test c08_demo2", ["C08", "C04"]),
  ("R2_C16_1", "C16", 1, [("demo1.rs", "server/tests/demo1.rs"), ("demo1.json", "server/tests/demo1.json")], "cargo test -p server --features verif --offline --test demo1", ["C16"]),
  ("R2_C05_2", "C16", 2, [("demo2.rs", "server/tests/demo2.rs"), ("demo2.json", "server/tests/demo2.json")], "cargo test -p server --offline --test demo2", ["C05", "C16", "C13"]),
- ("R2_C04_1", "C04", 1, [], "true", ["C04", "C09", "C15"]),
- ("R2_C04_2", "C04", 2, [], "true", ["C04", "C09", "C15"]),
+ ("R2_C04_1", "C04", 1, [("demo1.rs", "server/tests/c04_demo1.rs")], "cargo test --offline -p server --test c04_demo1", ["C04", "C09", "C11"]),
+ ("R2_C04_2", "C04", 2, [("demo2.rs", "server/tests/c04_demo2.rs")], "cargo test --offline -p server --test c04_demo2", ["C04", "C15", "C16"]),
 ]
 
 def confirm2(only):
